@@ -3,7 +3,7 @@ From Coq Require Import String.
 From Coq Require Import List ZArith Bool.
 From TR Require Import model.Ring model.Processor model.ProcAbs model.ProcSpec proofs.ProcS0304.
 (* constants and wiring read from the Go sources on every run *)
-From TR Require Import model.ProcExt proofs.TieCorollaries.
+From TR Require Import model.ProcExt proofs.TieProcCorollaries.
 From TR Require Import model.GoSem model.CtorExt proofs.TieCtor model.ProcExt translated.MotionProcessor.
 From TR Require Import proofs.FactsProc.
 Import ListNotations.
